@@ -204,6 +204,8 @@ pub enum RowSpec {
     EqPair { a: Vec<f64>, b: f64 },
     Axis { axis: u16, neg: bool, b: f64 },
     Through { a: Vec<f64>, anchor: u16 },
+    /// half-space that keeps a margin `slack >= 0` around an anchor point
+    Around { a: Vec<f64>, anchor: u16, slack: f64 },
 }
 
 #[derive(Clone, Debug, Serialize, Deserialize)]
@@ -289,6 +291,12 @@ impl PolySpec {
                     rows.push(a.clone());
                     tags.push("through_anchor");
                 }
+                RowSpec::Around { a, anchor, slack } if !self.anchors.is_empty() => {
+                    let p = &self.anchors[crate::runner::pick(*anchor, self.anchors.len())];
+                    bias.push(dot(a, p) + slack.abs());
+                    rows.push(a.clone());
+                    tags.push("around_anchor");
+                }
                 // references to earlier rows when there are none: fall back to an axis bound
                 _ => {
                     let mut a = vec![0.0; n];
@@ -315,6 +323,7 @@ pub fn row_spec(n: usize) -> impl Strategy<Value = RowSpec> {
         1 => (v(), nice_with(32, 2)).prop_map(|(a, b)| RowSpec::EqPair { a, b }),
         3 => (any::<u16>(), any::<bool>(), nice_with(32, 2)).prop_map(|(axis, neg, b)| RowSpec::Axis { axis, neg, b }),
         4 => (v(), any::<u16>()).prop_map(|(a, anchor)| RowSpec::Through { a, anchor }),
+        4 => (v(), any::<u16>(), (0i32..=32).prop_map(|k| k as f64 / 4.0)).prop_map(|(a, anchor, slack)| RowSpec::Around { a, anchor, slack }),
     ]
 }
 
